@@ -1448,3 +1448,54 @@ M("c08-tick-ignores-closed", "C08", "scope.go",
 	s.reportRegistry()""", """	s.reportRegistry()""", expect="O4 ticker-loop")
 M("c08-no-wg-done", "C08", "scope.go",
   "			defer s.wg.Done()\n			s.reportLoop(interval)", "			s.reportLoop(interval)", expect="O2 waitgroup")
+
+# ---------------------------------------------------------------- C06 sanitize
+M("c06-timer-name-unsanitized", "C06", "scope.go",
+  """func (s *scope) Timer(name string) Timer {
+	name = s.sanitizer.Name(name)
+""", """func (s *scope) Timer(name string) Timer {
+""", expect="O1 sanitize-before-sink")
+M("c06-key-for-value", "C06", "scope.go",
+  "		v = s.sanitizer.Value(v)", "		v = s.sanitizer.Key(v)", expect="O1 sanitize-before-sink")
+M("c06-revert-cardinality-defaults", "C06", "scope_registry.go",
+  """	for _, tags := range []map[string]string{defaultTags, cardinalityMetricsTags} {
+		for k, v := range tags {
+			r.cardinalityMetricsTags[root.sanitizer.Key(k)] = root.sanitizer.Value(v)
+		}
+	}""", """	for k, v := range defaultTags {
+		r.cardinalityMetricsTags[k] = v
+	}
+	for k, v := range cardinalityMetricsTags {
+		r.cardinalityMetricsTags[root.sanitizer.Key(k)] = root.sanitizer.Value(v)
+	}""", expect="O1 sanitize-before-sink")
+M("c06-separator-unsanitized", "C06", "scope.go",
+  "		separator:       sanitizer.Name(opts.Separator),", "		separator:       opts.Separator,", expect="O1 sanitize-before-sink")
+M("c06-subscope-prefix-unsanitized", "C06", "scope.go",
+  """func (s *scope) SubScope(prefix string) Scope {
+	prefix = s.sanitizer.Name(prefix)
+""", """func (s *scope) SubScope(prefix string) Scope {
+""", expect="O1 sanitize-before-sink")
+M("c06-tagged-tags-not-sanitized", "C06", "scope_registry.go",
+  "	tags = parent.copyAndSanitizeMap(tags)\n", "", expect="O1 sanitize-before-sink")
+M("c06-cardinality-name-raw", "C06", "scope_registry.go",
+  "		sanitizedGaugeCardinalityName:     root.sanitizer.Name(gaugeCardinalityName),", "		sanitizedGaugeCardinalityName:     gaugeCardinalityName,", expect="O1 sanitize-before-sink")
+M("c06-range-top-exclusive", "C06", "sanitize.go",
+  "				if ch >= c.Ranges[i][0] && ch <= c.Ranges[i][1] {", "				if ch >= c.Ranges[i][0] && ch < c.Ranges[i][1] {", expect="O2 inclusive-ranges")
+M("c06-range-bottom-exclusive", "C06", "sanitize.go",
+  "				if ch >= c.Ranges[i][0] && ch <= c.Ranges[i][1] {", "				if ch > c.Ranges[i][0] && ch <= c.Ranges[i][1] {", expect="O2 inclusive-ranges")
+M("c06-keyfn-from-value-chars", "C06", "sanitize.go",
+  "		keyFn:   opts.KeyCharacters.sanitizeFn(opts.ReplacementCharacter),", "		keyFn:   opts.ValueCharacters.sanitizeFn(opts.ReplacementCharacter),", expect="O3 sanitizer-table")
+M("c06-put-before-string", "C06", "sanitize.go",
+  "		result := buf.String()\n		putSanitizeBuffer(buf)\n		return result", "		putSanitizeBuffer(buf)\n		result := buf.String()\n		return result", expect="O4 pooled-buffer")
+M("c06-put-no-reset", "C06", "sanitize.go",
+  "	b.Reset()\n	_sanitizeBuffers.Put(b)", "	_sanitizeBuffers.Put(b)", expect="O4 pooled-buffer")
+M("c06-noop-trims", "C06", "sanitize.go",
+  "func NoOpSanitizeFn(v string) string { return v }", "func NoOpSanitizeFn(v string) string { return v + \"\" + v[:0] }", expect="O5 no-op")
+B("c06-benign-sanitize-twice", "C06", "scope.go",
+  """func (s *scope) Gauge(name string) Gauge {
+	name = s.sanitizer.Name(name)
+""", """func (s *scope) Gauge(name string) Gauge {
+	name = s.sanitizer.Name(s.sanitizer.Name(name))
+""")
+B("c06-benign-flipped-range-cmp", "C06", "sanitize.go",
+  "				if ch >= c.Ranges[i][0] && ch <= c.Ranges[i][1] {", "				if c.Ranges[i][0] <= ch && c.Ranges[i][1] >= ch {")
